@@ -82,8 +82,21 @@ class ConCtx(CtxBase):
         return d[k]
 
     def use_zlib_model(self, pairs):
-        """concrete mode: the real zlib is used; `pairs` (compressed, plain) must already be consistent"""
-        pass
+        """replay: the plain library runs with zlib replaced by the same contract model (zlib is environment)"""
+        import types
+        from .zmodel import Model, error
+        from .api import lib
+        m = Model(bytes)
+        for comp, plain in pairs:
+            m.register(comp, plain)
+        import zlib as _z
+        fake = types.SimpleNamespace(decompressobj=m.decompressobj, error=error, MAX_WBITS=_z.MAX_WBITS,
+                                     decompress=lambda d, *a, **k: m.decompressobj().decompress(d))
+        for modname in ('elf.sections', 'elf.elffile'):
+            mod = lib(modname)
+            if not hasattr(mod, '_real_zlib'):
+                mod._real_zlib = mod.zlib
+            mod.zlib = fake
 
     def unsigned_div(self, a, b): return a // b
 
